@@ -109,7 +109,7 @@ var paramMutations = []func(r *Rng, s string) string{
 	},
 	// hundreds of parameters / separators in one value (counters and indexes of small types wrap at 256)
 	func(r *Rng, s string) string {
-		n := []int{254, 255, 256, 257, 300, 1000, 70000}[r.Intn(7)]
+		n := []int{254, 255, 256, 257, 300, 1000, 5000}[r.Intn(7)]
 		switch r.Intn(3) {
 		case 0:
 			return s + strings.Repeat(";", n)
@@ -587,6 +587,11 @@ func init() {
 					kvs = append(kvs, k+"="+val)
 				}
 				sort.Strings(kvs)
+				if len(v) > 30000 {
+					// (the list-based model is quadratic in the number of parameters: the guarded call above is the check here)
+					c.Count(true, v, "very-long-value")
+					continue
+				}
 				c.AddCase(Case{Line: "mph " + encS(v), Want: encS(h) + " " + encLS(kvs), Nontrivial: len(opts) > 0, Branch: fmt.Sprintf("opts=%d", min(len(opts), 3)),
 					Desc: map[string]interface{}{"value": v}})
 			}
